@@ -171,6 +171,10 @@ func checkSrv(sc srvScenario, r *srvResult) []connVerdict {
 			}
 			if len(rs) == 0 {
 				add("C04", "one-response", "C04/no-response/"+rq.kind+"/"+mode, fmt.Sprintf("request %d (%s, %s) was never answered", k, rq.method, rq.kind))
+				if v, told := hret[k]; told && strings.HasPrefix(v, "err:") && atoi(strings.TrimPrefix(v, "err:")) > 60000 {
+					// C07: a header larger than the pooled write buffer must still be encoded
+					add("C07", "large-header-is-encoded", "C07/large-response-not-encoded/"+sc.Hdr, fmt.Sprintf("request %d: the handler failed with a %s-byte error text and no response frame was written for it", k, strings.TrimPrefix(v, "err:")))
+				}
 			}
 		}
 		if wantExec == 1 && e.execs[k] >= 1 && (string(rq.seenArgs) != string(rq.args) || rq.seenMethod != rq.method) {
@@ -255,6 +259,7 @@ func srvCorpus() []srvScenario {
 		}
 		mk("shapes", "req 1 Unary 0 ok", "req 2 Ctx 0 ok", "req 3 Ret 0 ok", "req 4 RetCtx 0 ok", "req 5 Nope 0 ok", "req 6 Unary 0 badargs", "ping 7", "eof")
 		mk("error-text-boundaries", "req 1 Unary 1 ok", "req 2 Ret 1 ok", "req 3 Ctx 1 ok", "req 4 RetCtx 1 ok", "req 5 Unary 1 ok", "req 6 Unary 1 ok", "hret 1 err:127", "hret 2 err:128", "hret 3 err:129", "hret 4 err:16383", "hret 5 err:16384", "hret 6 err:8", "eof")
+		mk("header-larger-than-the-write-buffer", "req 1 Unary 1 ok", "req 2 Ret 1 ok", "req 3 Unary 1 ok", "hret 1 err:65400", "hret 2 err:70000", "hret 3 err:131072", "req 4 Unary 0 ok", "eof")
 		mk("errors", "req 1 Unary 1 ok", "req 2 Ret 1 ok", "req 3 Ctx 1 ok", "hret 1 err:40", "hret 2 err:300", "hret 3 badreply", "req 4 Unary 0 ok", "eof")
 		mk("out-of-order-finish", "req 1 Unary 1 ok", "req 2 Unary 1 ok", "req 3 Unary 1 ok", "hret 3 ok", "hret 1 ok", "hret 2 ok", "ping 4", "eof")
 		mk("burst-then-eof", "req 1 Unary 0 ok", "req 2 Unary 0 ok", "req 3 Unary 0 ok", "req 4 Unary 0 ok", "req 5 Unary 0 ok", "req 6 Unary 0 ok", "eof")
